@@ -113,7 +113,9 @@ class Spec:
     def view_get(self, ex, st, ks, vs):
         n = self.view_name(ks, vs)
         if n not in st.ghost:
-            st.ghost[n] = z3.Const('g0_' + mangle(n), z3.ArraySort(Addr, z3.ArraySort(ks, ex.ts.opt_sort(vs))))
+            ep = getattr(st, 'env_epoch', 0)
+            st.ghost[n] = z3.Const(('g0_' if ep == 0 else 'gENV%d_' % ep) + mangle(n),
+                                   z3.ArraySort(Addr, z3.ArraySort(ks, ex.ts.opt_sort(vs))))
         return st.ghost[n]
 
     def gomap_name(self, ks, vs):
@@ -776,9 +778,11 @@ class Spec:
         """Interference mode: other goroutines ran an arbitrary number of operations on the shared container: its
         abstract contents are arbitrary, subject to the invariants that every operation preserves (the `requires`
         clauses of the function under proof, which are object invariants)."""
+        ex.env_epochs = getattr(ex, 'env_epochs', 0) + 1
+        st.env_epoch = ex.env_epochs
         for g in list(st.ghost.keys()):
             if g.startswith('view$'):
-                st.ghost[g] = ex.fresh('gENV_' + mangle(g), st.ghost[g].sort())
+                del st.ghost[g]       # re-created on demand under a name unique to this environment step
         con = ex.cur_contract
         if con is not None:
             for c in con.of('requires'):
